@@ -399,13 +399,13 @@ func (s *fstate) ord(e ast.Expr) Ord {
 		if so := s.ord(x.X); so&Txt != 0 {
 			defer func() {}()
 			if _, isLit := x.Index.(*ast.BasicLit); isLit && so&Unord != 0 {
-				s.choiceAt(x, "constant index on unordered slice "+types.ExprString(x))
+				s.choiceAt(x, "constant index on unordered slice "+core.Stable(s.info, x))
 			}
 			return Txt
 		}
 		if s.ord(x.X)&Unord != 0 {
 			if _, isLit := x.Index.(*ast.BasicLit); isLit {
-				s.choiceAt(x, "constant index on unordered slice "+types.ExprString(x))
+				s.choiceAt(x, "constant index on unordered slice "+core.Stable(s.info, x))
 			}
 		}
 		return Det
@@ -699,13 +699,13 @@ func (s *fstate) assign(lhs ast.Expr, rhs ast.Expr, rhsOrd Ord, tok token.Token,
 			}
 			s.setMapV(c, v, "map store at "+s.pos(n))
 			if s.inLoopUnord() && s.isOuterLoop(o) && v == rhsOrd && !s.mentionsLoopVar(lx.Index) && rhs != nil && !isFreshEmpty(rhs) && !isConst(s.info, rhs) {
-				s.choiceAt(n, "keyed store "+types.ExprString(lhs)+" not keyed by the loop variable (last-wins / first-wins)")
+				s.choiceAt(n, "keyed store "+core.Stable(s.info, lhs)+" not keyed by the loop variable (last-wins / first-wins)")
 			} else if !s.inLoopUnord() && g.funcCtx[s.d.fn] && s.isOuter(o) && rhs != nil && !isFreshEmpty(rhs) && !isConst(s.info, rhs) && !isSelfAppend(lhs, rhs) {
 				// the function runs once per element of an unordered sequence (e.g. per input document) and
 				// stores into state that outlives the call: which element wins for a key is order-dependent
 				// unless the stored value is determined by the key
 				if !s.keyDetermined(lx.Index, rhs) {
-					s.choiceAt(n, "per-element store "+types.ExprString(lhs)+" whose value is not determined by its key (first/last element wins)")
+					s.choiceAt(n, "per-element store "+core.Stable(s.info, lhs)+" whose value is not determined by its key (first/last element wins)")
 				}
 			}
 			return
@@ -741,7 +741,7 @@ func (s *fstate) assign(lhs ast.Expr, rhs ast.Expr, rhsOrd Ord, tok token.Token,
 		// scalar / struct / pointer: last-wins choice site if element-derived and outer (loop-level contexts only)
 		if s.inLoopUnord() && s.isOuterLoop(root) && rhs != nil && !isConst(s.info, rhs) && tok != token.DEFINE && !isFold(rhs, lhs) {
 			if lt != nil && types.TypeString(lt, nil) != "error" {
-				s.choiceAt(n, "last-wins assignment to "+types.ExprString(lhs))
+				s.choiceAt(n, "last-wins assignment to "+core.Stable(s.info, lhs))
 			}
 		}
 		return
@@ -1189,7 +1189,7 @@ func (s *fstate) noteExit(n ast.Node, kind string) {
 		}
 		var parts []string
 		for _, e := range r.Results {
-			parts = append(parts, types.ExprString(e))
+			parts = append(parts, core.Stable(s.info, e))
 		}
 		desc = "return " + strings.Join(parts, ",")
 	}
